@@ -23,7 +23,10 @@ TEXT = ("Partial claim. TLC checks, on every text up to the length bound over th
         "benchfmt.Reader in the iteration-count and the measurement position: accept/reject against the spec's class (rejected or "
         "out of range => one SyntaxError for the line), integers exactly against the denotation, float bits against "
         "strconv.ParseFloat and ints against strconv.Atoi (the oracle the property names). NOT claimed: correct rounding across the "
-        "float64 range - TLC has no floating point; beyond the enumerated texts and the boundary families nothing is asserted about values.")
+        "float64 range - TLC has no floating point; beyond the enumerated texts and the boundary families nothing is asserted about values. "
+        "Where the exact rational value of the spec's denotation (math/big, auxiliary) shows that the standard parser itself is not "
+        "correctly rounded - decimal texts with more than 800 integer digits, the named deviation NumLit.LosesIntegerDigits - the "
+        "expected value is the exactly rounded one and the as-built value is reported under the signature decimal-over-800-integer-digits.")
 NOTE = ("Trusted: TLC, the Go standard library's strconv as the value oracle (as the property defines it), the line templates "
         "`BenchmarkX <text> 1 ns/x` and `BenchmarkX 1 <text> x` in the harness, math/big for the auxiliary exact-rational "
         "cross-check of the spec's denotation against strconv. The rounding algorithm itself (19-digit accumulator, exact path, "
@@ -32,9 +35,11 @@ NOTE = ("Trusted: TLC, the Go standard library's strconv as the value oracle (as
 TECHNIQUE = "TLA+ model checking (TLC) of a literal grammar vs scanner transcription + exhaustive short-text replay and spec-classified boundary families through benchfmt.Reader, differential against strconv"
 DESIGN_REF = "DESIGN.md section 4 C03, section 6"
 
-RULE = ("(M) exhaustive TLC on NumLit.tla: invariants GrammarTotal, UnderscoreAgree, DenotAgree, ScannersAgree, AtofAgrees, "
+RULE = ("(M) exhaustive TLC on NumLit.tla: invariants GrammarTotal, UnderscoreAgree, DenotAgree, ScannersAgree, FastPathExact, AtofAgrees, "
         "AtoiAgrees, IntIsFloat, CaseBlind, DigitBlind over all texts of the grammar alphabets up to the bound; FastPathExact, "
-        "AtoiAgrees, RangeRule, DigitArith, ThresholdRule over all digit/sign strings around the bounds for MAX in {99, 999, 32767}. "
+        "AtofAgrees, AtoiAgrees, RangeRule, DigitArith, ThresholdRule over all digit/sign strings around the bounds for MAX in {99, 999, 32767}; "
+        "DenotAgree, ScannersAgree with a 3-digit model of decimal.set's buffer (normative; NumLit_asbuilt.cfg with LosesIntegerDigits "
+        "must produce the counterexample). "
         "(G) one replay case per distinct text printed by NumLit_gen (enumerated texts + BoundaryInts for MAX = 2^63-1) and per "
         "driver-built boundary text classified by NumLit_genfile; each case = two one-line inputs through benchfmt.Reader. "
         "distinct_nontrivial = distinct texts that are well-formed floats or integers (class not bad in at least one position). "
